@@ -1,8 +1,8 @@
-(* C01 — no look-ahead: an order never fills on the tick that admits it. Statements only; the skeleton theorems hold for EVERY decision function (hence for both exchanges and all order types) and every number type; the server theorems for every exchange. Proofs in Proofs/. *)
+(* C01 — no look-ahead: an order never fills on the tick that admits it. Statements only; the skeleton theorems hold for EVERY decision function (hence for both exchanges and all order types) and every number type; the server theorems for every exchange. The property's last sentence is ONE theorem about the composition server + exchange (c01_end_to_end and its instances for the two services over Penelope-built datasets): orders carry a ghost tag — the clock date their backtest showed when the client submitted them (Model/Tagged.v) — through the very same polymorphic skeleton, erasing the tags gives back the model that is tied to the code (c01_tagged_run_erases), and every fill's date is strictly later than its order's tag. Proofs in Proofs/. *)
 From Coq Require Import ZArith NArith List Bool String Permutation Sorted Floats.
-From Alator Require Import Model.Num Model.Quirks Model.Exchange Model.Uist Model.Jura Model.Server
+From Alator Require Import Model.Num Model.Quirks Model.Exchange Model.Uist Model.Jura Model.Server Model.Tagged Model.Penelope Model.Strategy Check.ServerCheck
   Proofs.ListAux Proofs.ExchangeProofs Proofs.UistProofs Proofs.JuraProofs Proofs.ExchangeCorollaries
-  Proofs.ServerProofs.
+  Proofs.ServerProofs Proofs.PenelopeProofs Proofs.EndToEnd Proofs.EndToEndCor.
 Import ListNotations.
 
 (* Every fill of a tick belongs to an order that was resting BEFORE the tick (its id is below the id counter at tick entry), whose symbol is quoted on this tick, and is the value the decision function computes from that order and that tick's quote for that symbol — nothing else. Orders admitted by the tick, and trigger children created by it, get ids at or above the counter, so none of them can be among the fills. Fills are in book order. *)
@@ -116,6 +116,129 @@ Theorem c01_increasing_dates :
          i < j -> nth_error l i = Some di -> nth_error l j = Some dj -> (di < dj)%Z.
 Proof. exact @increasing_nth. Qed.
 
+(* Ghost tags are inert (exchange): one step of the tagged exchange, tags erased, is the step of the untagged one. *)
+Theorem c01_tagged_step_erases :
+  forall (Ord Qt T : Type) (asset_of : Ord -> N) (sym_of : Ord -> string)
+           (is_sell : Ord -> bool) (decide : entry Ord -> Qt -> action Ord T) 
+           (x : exch tOrd tT) (o : op tOrd Qt),
+         let
+         '(x', r) :=
+          step (t_asset asset_of) (t_sym sym_of) (t_is_sell is_sell) (t_decide decide) x o in
+          step asset_of sym_of is_sell decide (erase_exch x) (erase_op o) =
+          (erase_exch x', erase_xout r).
+Proof. exact @erase_step. Qed.
+
+(* Ghost tags are inert (server): for every history the tagged run, tags erased, is the run of the skeleton-level server — states and responses. *)
+Theorem c01_tagged_run_erases :
+  forall (Ord Qt T : Type) (asset_of : Ord -> N) (sym_of : Ord -> string)
+           (is_sell : Ord -> bool) (decide : entry Ord -> Qt -> action Ord T) 
+           (is_jura : bool) (s : tapp) (ops : list (sop Ord key)),
+         let
+         '(s', rs) := t_run asset_of sym_of is_sell decide clean is_jura s ops in
+          sk_srun asset_of sym_of is_sell decide clean is_jura (erase_app s) ops =
+          (erase_app s', map erase_res rs).
+Proof. exact @t_run_erases. Qed.
+
+(* The Uist service of the model (the one compared with http/uist.rs) is the skeleton-level server with the fill ids and triggered ids dropped from the tick response … *)
+Theorem c01_uist_service_is_projection :
+  forall (F : Type) (NF : Num F) (qk : quirks) (s : uapp) (o : sop (uorder F) N),
+         Strategy.usstep qk s o =
+         (let
+          '(s', r) :=
+           sk_sstep uist_asset uo_symbol uist_is_sell uist_decide qk false s (ukey_op o) in
+           (s', uproj_res r)).
+Proof. exact @u_sstep_is_projection. Qed.
+
+(* … and the Jura service is it with the ids kept (jg_sstep is Check/ServerCheck.v's j_sstep, the one compared with http/jura.rs, stated for every number type; Proofs/EndToEnd.v j_sstep_is_projection is its IEEE instance). *)
+Theorem c01_jura_service_is_projection :
+  forall (F : Type) (NF : Num F) (qk : quirks) (s : app (jexch F) (quotes (quote F)))
+           (o : sop (jorder F) key),
+         jg_sstep qk s o =
+         (let
+          '(s', r) := sk_sstep jo_asset jura_sym jura_is_sell (jura_decide qk) qk true s o in
+           (s', jproj_res r)).
+Proof. exact @jg_sstep_is_projection. Qed.
+
+(* END TO END, every exchange whose decision dates a fill with its quote, every history of init / new_backtest / insert / delete / tick / fetch / info / now over any number of backtests and datasets whose dates increase and whose rows carry their own date: if no tick is issued on a backtest after one of its ticks answered has_next = false, every fill reported by any tick is dated STRICTLY LATER than the clock date the server showed for that backtest when the client submitted the order (for a trigger child: its parent). *)
+Theorem c01_end_to_end :
+  forall (Ord Qt T : Type) (asset_of : Ord -> N) (sym_of : Ord -> string)
+           (is_sell : Ord -> bool) (decide : entry Ord -> Qt -> action Ord T) 
+           (qdate : Qt -> Z) (tdate : T -> Z) (is_jura : bool),
+         decide_dates_fills decide qdate tdate ->
+         forall (ds : list (string * dataset (quotes Qt))) (ops : list (sop Ord key)) 
+           (s' : tapp) (rs : list (sres (quotes Qt) t_out)),
+         datasets_ok qdate ds ->
+         t_run asset_of sym_of is_sell decide clean is_jura (app_create ds) ops = (s', rs) ->
+         polite [] (combine ops rs) = true ->
+         forall (id : N) (p : list nat) (hn : bool) (fl : list (N * tT)) 
+           (adm : list (N * tOrd)) (trig : list N) (i : N) (t : T) (z : Z),
+         In (STick id p, RTick (Some (hn, (fl, adm, trig)))) (combine ops rs) ->
+         In (i, (t, z)) fl -> (z < tdate t)%Z.
+Proof. exact @c01_end_to_end. Qed.
+
+(* The same from AppState::single. *)
+Theorem c01_end_to_end_single :
+  forall (Ord Qt T : Type) (asset_of : Ord -> N) (sym_of : Ord -> string)
+           (is_sell : Ord -> bool) (decide : entry Ord -> Qt -> action Ord T) 
+           (qdate : Qt -> Z) (tdate : T -> Z) (is_jura : bool),
+         decide_dates_fills decide qdate tdate ->
+         forall (name : string) (d : dataset (quotes Qt)) (s0 : app (exch tOrd tT) (quotes Qt))
+           (ops : list (sop Ord key)) (s' : tapp) (rs : list (sres (quotes Qt) t_out)),
+         dataset_ok qdate d ->
+         app_single exch_init name d = Some s0 ->
+         t_run asset_of sym_of is_sell decide clean is_jura s0 ops = (s', rs) ->
+         polite [] (combine ops rs) = true ->
+         forall (id : N) (p : list nat) (hn : bool) (fl : list (N * tT)) 
+           (adm : list (N * tOrd)) (trig : list N) (i : N) (t : T) (z : Z),
+         In (STick id p, RTick (Some (hn, (fl, adm, trig)))) (combine ops rs) ->
+         In (i, (t, z)) fl -> (z < tdate t)%Z.
+Proof. exact @c01_end_to_end_single. Qed.
+
+(* Instance: the Uist service over datasets loaded by Penelope::add_quote with dates that never go back (all other premises discharged: c07_dataset_*, uist_decide dates a trade with its quote). *)
+Theorem c01_uist_end_to_end :
+  forall (F : Type) (NF : Num F) (ds : list (string * dataset (quotes (quote F))))
+           (ops : list (sop (uorder F) key)) (s' : tapp)
+           (rs : list (sres (quotes (quote F)) t_out)),
+         loaded_in_order ds ->
+         t_run uist_asset uo_symbol uist_is_sell uist_decide clean false (app_create ds) ops =
+         (s', rs) ->
+         polite [] (combine ops rs) = true ->
+         forall (id : N) (p : list nat) (hn : bool) (fl : list (N * tT)) 
+           (adm : list (N * tOrd)) (trig : list N) (i : N) (t : trade F) 
+           (z : Z),
+         In (STick id p, RTick (Some (hn, (fl, adm, trig)))) (combine ops rs) ->
+         In (i, (t, z)) fl -> (z < t_date t)%Z.
+Proof. exact @c01_uist_end_to_end. Qed.
+
+(* Instance: the Jura service, likewise. *)
+Theorem c01_jura_end_to_end :
+  forall (F : Type) (NF : Num F) (ds : list (string * dataset (quotes (quote F))))
+           (ops : list (sop (jorder F) key)) (s' : tapp)
+           (rs : list (sres (quotes (quote F)) t_out)),
+         loaded_in_order ds ->
+         t_run jo_asset jura_sym jura_is_sell (jura_decide clean) clean true (app_create ds) ops =
+         (s', rs) ->
+         polite [] (combine ops rs) = true ->
+         forall (id : N) (p : list nat) (hn : bool) (fl : list (N * tT)) 
+           (adm : list (N * tOrd)) (trig : list N) (i : N) (t : fill F) 
+           (z : Z),
+         In (STick id p, RTick (Some (hn, (fl, adm, trig)))) (combine ops rs) ->
+         In (i, (t, z)) fl -> (z < f_time t)%Z.
+Proof. exact @c01_jura_end_to_end. Qed.
+
+(* The caveat is necessary: a client that ticks after has_next = false gets a fill dated exactly the submission clock date (kernel-evaluated history; every other premise of c01_end_to_end holds for it). *)
+Theorem c01_after_end_not_strict :
+  let
+         '(_, rs) :=
+          t_run toy_asset toy_sym toy_sell toy_decide clean false (app_create toy_ds) toy_ops in
+          polite [] (combine toy_ops rs) = false /\
+          (exists
+             (id : N) (p : list nat) (hn : bool) (fl : list (N * tT)) 
+           (adm : list (N * tOrd)) (trig : list N) (i : N) (t z : Z),
+             In (STick id p, RTick (Some (hn, (fl, adm, trig)))) (combine toy_ops rs) /\
+             In (i, (t, z)) fl /\ z = toy_date t).
+Proof. exact @c01_after_end_not_strict. Qed.
+
 (* With the Jura clock defect (pos never stored) the clock parks on the second date: ticks keep matching the same row, so an order submitted there fills dated that same date. *)
 Theorem c01_refuted_q_jura_pos_stuck :
   let qk :=
@@ -164,4 +287,13 @@ Print Assumptions c01_every_reachable_state_invariant.
 Print Assumptions c01_server_tick_uses_row_of_clock_date.
 Print Assumptions c01_server_clock_after_history.
 Print Assumptions c01_increasing_dates.
+Print Assumptions c01_tagged_step_erases.
+Print Assumptions c01_tagged_run_erases.
+Print Assumptions c01_uist_service_is_projection.
+Print Assumptions c01_jura_service_is_projection.
+Print Assumptions c01_end_to_end.
+Print Assumptions c01_end_to_end_single.
+Print Assumptions c01_uist_end_to_end.
+Print Assumptions c01_jura_end_to_end.
+Print Assumptions c01_after_end_not_strict.
 Print Assumptions c01_refuted_q_jura_pos_stuck.
